@@ -1311,6 +1311,8 @@ class FnTranslator:
                     for (fname_, fe) in x[2]:
                         if fname_ in ftys:
                             setv(fe, ftys[fname_])
+                            if fe[0] == "mcall" and fe[2] == "into" and not fe[3] and is_list(ftys[fname_]):
+                                setv(fe[1], T("Vec", ftys[fname_][2][0]))       # field: v.into() with a slice-typed field
             if k == "call" and x[1][0] == "path":
                 info = self.lookup_fn(x[1][1])
                 if info:
